@@ -9,23 +9,35 @@ from vp.ref import mapping as ref
 
 PROPERTY = "C06"
 RULE = (
-    "rect / delaunay: Hypothesis masks 3x3..6x6 (4/5 of cases) or 1x1..3x3 (1/5; all families of vp.gens.masks, >=1 unmasked pixel), isotropic and "
-    "anisotropic pixel scales, origins up to |20|, uniform (1/4 of cases) or per-pixel integer sub-size 1..4, source "
-    "grid = over-sampled image grid under identity / affine / affine+sinusoidal warp with jitter; rectangular mesh "
-    "3..7 x 3..7 overlaid on the source grid; Delaunay vertices = jittered 2..7 x 2..7 lattice (5..49 vertices, "
-    "de-regularised by a fixed per-index offset so no four are co-circular) over the source bounding box scaled by "
-    "0.6/0.8/1.05/1.3 (so sub-pixels fall outside the hull in most cases). Oracle: plain-numpy reference "
-    "(vp/ref/mapping.py): rectangular cell = floor of the coordinate relative to the bounding box +-1e-8 (own "
-    "arithmetic, plus containment within half a cell of the mesh's published centre); Delaunay = brute-force "
-    "barycentric search over scipy.spatial.Delaunay simplices (2x2 solve), nearest vertex outside the hull; "
-    "M_ref = binning(1/sub_i^2) @ S_ref. Compared: rows >= 0 and sum to 1; per-sub-pixel weights; dense matrix; "
-    "dense vs matrix rebuilt from unique_mappings; pix_lengths vs distinct pixels; neighbour lists vs 4-connectivity "
-    "/ simplex edges, symmetry, padding. delaunay-special-points: 1..5 image pixels with sub 1..2 whose source "
-    "positions are placed exactly on vertices, on simplex edges (fractions 1/2, 1/4, 1/3, arbitrary), at interior "
-    "barycentric combinations and outside the hull (same oracle; weights are continuous across interior edges so "
-    "either adjacent simplex is accepted; on the hull boundary either branch is accepted). rect-neighbors: exhaustive mesh shapes 3..10 x 3..10 (quick) / 3..16 "
-    "(thorough). Non-trivial = per-pixel sub-size not constant and at least one image pixel maps to >= 2 source "
-    "pixels; distinct = SHA-1 of the canonical case."
+    "rect / delaunay: Hypothesis masks 3x3..6x6 (4/5 of cases) or 1x1..3x3 (1/5; all families of vp.gens.masks, >=1 "
+    "unmasked pixel), isotropic and anisotropic pixel scales, origins up to |20| (3/4) or |100| (1/4), uniform (1/4 of "
+    "cases) or per-pixel integer sub-size 1..4, source grid = over-sampled image grid under identity / affine / "
+    "affine+sinusoidal warp with jitter; rectangular mesh 3..7 x 3..7 overlaid on the source grid (default buffer, or "
+    "buffer scaled with the plane); Delaunay vertices = jittered 2..7 x 2..7 lattice (5..49 vertices, de-regularised by "
+    "a fixed per-index offset so no four are co-circular) over the source bounding box scaled by 0.6/0.8/1.05/1.3 (so "
+    "sub-pixels fall outside the hull in most cases). MAGNITUDE: image-plane pixel scales / origin and the whole source "
+    "plane (data grid and mesh vertices) are multiplied by an exact power of two 2**k, k in {0 (about half), -30, -20 "
+    "(~1e-6, radians-like), -10, 10, 20, any of -30..20}, plus an explicit class (1/20) k=20 with the field 40..100 "
+    "from zero (max|coordinate| 2**25..2**27). STATE: every mapper carries a regularization scheme and an adapt image "
+    "(positive / with zeros / signed / all ones) and is driven through a drawn interleaving of up to 9 public queries "
+    "(pixel_signals_from, data_weight_total_for_pix_from, mapped_to_source_from, pix_indexes_for_slim_indexes, "
+    "sub_slim_indexes_for_pix_index(_arr), neighbors, edge_pixel_list, regularization_matrix, interpolated_array_from, "
+    "extent_from, MapperValued masked image / brightest pixels / magnification, the cached index arrays, Delaunay "
+    "split-cross weights) with the three reads under test (pix_sub_weights, mapping_matrix, unique_mappings) in a drawn "
+    "order; after every step every array already handed out by a read must be unchanged, a second read must return the "
+    "same values, and all three must equal those of a fresh mapper that is only read; the reference comparisons below "
+    "are made on the queried mapper. Oracle: plain-numpy reference (vp/ref/mapping.py): rectangular cell = floor of the "
+    "coordinate relative to the bounding box +- buffer (own arithmetic, plus containment within half a cell of the "
+    "mesh's published centre); Delaunay = brute-force barycentric search over scipy.spatial.Delaunay simplices (2x2 "
+    "solve), nearest vertex outside the hull; M_ref = binning(1/sub_i^2) @ S_ref; Delaunay matrices at 2**k also equal "
+    "the unit-scale matrix (1e-12). Compared: rows >= 0 and sum to 1; per-sub-pixel weights; dense matrix; dense vs "
+    "matrix rebuilt from unique_mappings; pix_lengths vs distinct pixels; neighbour lists vs 4-connectivity / simplex "
+    "edges, symmetry, padding. delaunay-special-points: 1..5 image pixels with sub 1..2 whose source positions are "
+    "placed exactly on vertices, on simplex edges (fractions 1/2, 1/4, 1/3, arbitrary), at interior barycentric "
+    "combinations and outside the hull, at the same magnitude classes (same oracle; weights are continuous across "
+    "interior edges so either adjacent simplex is accepted; on the hull boundary either branch is accepted). "
+    "rect-neighbors: exhaustive mesh shapes 3..10 x 3..10 (quick) / 3..16 (thorough). Non-trivial = per-pixel sub-size "
+    "not constant and at least one image pixel maps to >= 2 source pixels; distinct = SHA-1 of the canonical case."
 )
 ASSUMPTIONS = [
     "scipy.spatial.Delaunay's list of simplices is the triangulation (its point location find_simplex and the "
@@ -33,21 +45,29 @@ ASSUMPTIONS = [
     ">= 1e-9, else the case's reference comparison is skipped and counted)",
     "the sub-pixels of image pixel i are the i-th run of sub_i^2 consecutive entries of the over-sampled grid; this is "
     "verified geometrically in every case (each sub-pixel lies inside its pixel's footprint) rather than trusted",
-    "tolerances: row sums 1e-12; dense vs unique and dense vs binned per-sub-pixel weights 1e-12; rectangular and "
-    "outside-hull weights vs reference 1e-9 absolute; inside-hull barycentric weights 1e-9 + 32*eps*kappa with kappa = "
-    "max(|coordinate|^2, longest edge^2)/(2*area) of the worst simplex containing the point to rounding (the forward error "
-    "of area-ratio weights evaluated in double from absolute coordinates; 1e-9 for well-shaped triangles near the origin, "
-    "looser for slivers / far-from-origin grids; a dense-matrix row takes the largest tolerance of its sub-pixels)",
-    "tie bands (excluded, counted): rectangular sub-pixels within 1e-11*max(1,max|coordinate|) of a cell boundary; "
-    "Delaunay sub-pixels with a hull-edge barycentric coordinate within 1e-9 + 64*eps/quality of 0 (hull boundary: excluded "
-    "from the exact comparison but still required to equal one of the two branches), outside-hull "
-    "sub-pixels whose two nearest vertices differ by < 1e-9 relative squared distance, sub-pixels in a triangle of "
-    "shape quality 2*area/longest_edge^2 < 1e-8 (numerically degenerate simplex)",
+    "tolerances (all dimensionless or relative to the magnitude of the plane): row sums 1e-12; dense vs unique and "
+    "dense vs binned per-sub-pixel weights 1e-12; rectangular and outside-hull weights vs reference 1e-9 absolute; "
+    "inside-hull barycentric weights 1e-9 + 32*eps*kappa with kappa = max(|coordinate|^2, longest edge^2)/(2*area) of "
+    "the worst simplex containing the point to rounding (the forward error of area-ratio weights evaluated in double "
+    "from absolute coordinates; 1e-9 for well-shaped triangles near the origin, looser for slivers / far-from-origin "
+    "grids; a dense-matrix row takes the largest tolerance of its sub-pixels); state / call-order comparisons exact",
+    "tie bands (excluded, counted; relative to the scale): rectangular sub-pixels within 1e-11*(max|coordinate| + "
+    "buffer) of a cell boundary (still subject to the containment check); Delaunay sub-pixels with a hull-edge "
+    "barycentric coordinate within 1e-9 + 64*eps/quality of 0 (hull boundary: excluded from the exact comparison but "
+    "still required to equal one of the two branches), outside-hull sub-pixels whose two nearest vertices differ by "
+    "< 1e-9 relative squared distance, sub-pixels in a triangle of shape quality 2*area/longest_edge^2 < 1e-8 "
+    "(numerically degenerate simplex)",
+    "a query that raises is recorded (label query-raised:...) but not judged here: its own contract belongs to other "
+    "properties; only its side effects on the three outputs are checked",
+    "the rectangular matrix is not compared across scales with the default buffer because overlay_grid's buffer "
+    "(1e-8) is an absolute length; with the 'scaled' buffer class the reference at each scale is the oracle",
     "Voronoi natural-neighbour mappers are out of scope (external C library absent)",
 ]
 TECHNIQUE = ("Hypothesis-generated masks / sub-size maps / warped source grids / meshes against a plain-numpy reference "
              "mapping matrix (own cell arithmetic; brute-force barycentric search), dense-vs-sparse encoding round trip, "
-             "adjacency vs explicit graph; exhaustive enumeration of rectangular mesh shapes for neighbour lists")
+             "adjacency vs explicit graph; drawn interleavings of public queries and reads vs a fresh read-only mapper "
+             "(state / call-order); metamorphic power-of-two rescaling of the source plane; exhaustive enumeration of "
+             "rectangular mesh shapes for neighbour lists")
 
 TOL_REF = 1e-9
 TOL_SUM = 1e-12
@@ -58,6 +78,53 @@ QUALITY_MIN = 1e-8
 # ---------------------------------------------------------------------------------------------
 # strategies
 # ---------------------------------------------------------------------------------------------
+READS = ["read:pix_sub_weights", "read:mapping_matrix", "read:unique_mappings"]
+QUERIES = ["pixel_signals", "data_weight_total", "mapped_to_source", "pix_indexes_for_slim_indexes",
+           "sub_slim_indexes_for_pix_index", "sub_slim_indexes_for_pix_index_arr", "neighbors", "edge_pixel_list",
+           "regularization_matrix", "interpolated_array", "extent", "valued_masked_image", "valued_max_pixels",
+           "cached_index_arrays"]
+QUERIES_DELAUNAY = ["split_cross", "valued_magnification"]
+REGS = {"rect": ("constant", "constant_zeroth", "adaptive_brightness", "brightness_zeroth", "gaussian_kernel", "exponential_kernel"),
+        "delaunay": ("constant", "constant_zeroth", "constant_split", "adaptive_brightness", "adaptive_brightness_split",
+                     "brightness_zeroth", "gaussian_kernel", "exponential_kernel")}
+
+
+@st.composite
+def scale_exps(draw):
+    """Exponent k of the exact power of two 2**k multiplying the whole source plane (and the image-plane pixel
+    scales / origin): unit scale, the radians-like 2**-20 ~ 1e-6, the extremes, or any k in -30..20."""
+    return draw(st.one_of(st.just(0), st.just(0), st.sampled_from([-30, -20, -20, -10, 10, 20]), st.integers(-30, 20)))
+
+
+@st.composite
+def adapt_images(draw, n):
+    kind = draw(st.sampled_from(["positive", "with-zeros", "signed", "ones"]))
+    if kind == "ones":
+        return kind, [1.0] * n
+    if kind == "positive":
+        return kind, draw(st.lists(gens.reals(0.05, 10.0), min_size=n, max_size=n))
+    if kind == "signed":
+        return kind, draw(st.lists(gens.reals(-5.0, 5.0), min_size=n, max_size=n))
+    vals = draw(st.lists(gens.reals(0.0, 10.0), min_size=n, max_size=n))
+    keep = draw(st.lists(st.booleans(), min_size=n, max_size=n))
+    return kind, [v if k else 0.0 for v, k in zip(vals, keep)]
+
+
+@st.composite
+def op_sequences(draw, kind):
+    """Random interleaving of public mapper queries with the three reads under test; every read occurs at least
+    once (missing ones are appended in a drawn order)."""
+    pool = QUERIES + (QUERIES_DELAUNAY if kind == "delaunay" else [])
+    if draw(st.integers(0, 5)) == 0:
+        ops = []
+    else:
+        ops = draw(st.lists(st.one_of(st.sampled_from(pool), st.sampled_from(pool), st.sampled_from(READS)), min_size=1, max_size=7))
+    missing = [r for r in READS if r not in ops]
+    order = draw(st.permutations(missing))
+    tail = draw(st.lists(st.sampled_from(pool), min_size=0, max_size=2))
+    return ops + list(order) + tail
+
+
 @st.composite
 def mapper_cases(draw, kind):
     if draw(st.integers(0, 4)) == 0:
@@ -69,14 +136,24 @@ def mapper_cases(draw, kind):
         sub = draw(st.integers(1, 4))
     else:
         sub = draw(st.lists(st.integers(1, 4), min_size=n, max_size=n))
-    spec = draw(scene.obj_specs(n, kinds=(kind,), max_sub=4, max_mesh=7, sub=sub))
-    spec["reg"] = None
+    spec = draw(scene.obj_specs(n, kinds=(kind,), max_sub=4, max_mesh=7, sub=sub, reg_types=REGS[kind], reg_none=False))
     if kind == "delaunay":
         # general position by construction: a fixed irrational-looking per-index offset removes exact lattices
         j = spec["jitter"]
         spec["jitter"] = [0.8 * float(v) + 0.06 * float(scene._hash01(k + 0.25)) for k, v in enumerate(j)]
-    return {"mask": mask, "pixel_scales": draw(gens.pixel_scales()), "origin": draw(gens.origins(mag=20.0)),
-            "obj": spec}
+    else:
+        spec["buffer"] = draw(st.sampled_from(["default", "default", "scaled"]))
+    akind, adapt = draw(adapt_images(n))
+    origin = draw(st.one_of(gens.origins(mag=20.0), gens.origins(mag=20.0), gens.origins(mag=20.0), gens.origins(mag=100.0)))
+    k = draw(scale_exps())
+    if draw(st.integers(0, 19)) == 0:
+        # explicit class: upper end of the magnitude regime, max|coordinate| ~ 2**25..2**27 (2**20 x a field 40..100 from zero)
+        k = 20
+        sign = st.sampled_from([-1.0, 1.0])
+        origin = [draw(sign) * draw(st.floats(40.0, 100.0)), draw(sign) * draw(st.floats(40.0, 100.0))]
+    return {"mask": mask, "pixel_scales": draw(gens.pixel_scales()), "origin": origin,
+            "obj": spec, "scale_exp": k, "adapt": adapt, "adapt_kind": akind,
+            "ops": draw(op_sequences(kind))}
 
 
 # ---------------------------------------------------------------------------------------------
@@ -133,8 +210,153 @@ def _check_neighbors(ctx, arr, sizes, adj, key):
                 ctx.check(q in got[r], key + "/symmetry", "%d lists %d but not vice versa" % (q, r))
 
 
-def _prepare(case, ctx, kind):
-    """Builds the mapper, returns (mapper, info, sub array, binning matrix, owner)."""
+def _scale_label(k):
+    if k == 0:
+        return "scale:unit"
+    if k < 0:
+        return "scale:2^-30..-11" if k <= -11 else "scale:2^-10..-1"
+    return "scale:2^1..10" if k <= 10 else "scale:2^11..20"
+
+
+def _build(case, kind, scale_exp):
+    """Own builder (variant of scene.build_linear_obj): the image-plane pixel scales / origin and the whole source
+    plane (data grid, mesh vertices) are multiplied by the exact power of two 2**scale_exp; the mapper carries the
+    case's adapt image and regularization.  Returns dict(mapper, mesh, src, verts, over_sampler, buffer)."""
+    import autoarray as aa
+    s = 2.0 ** int(scale_exp)
+    spec = case["obj"]
+    m = np.asarray(case["mask"], dtype=bool)
+    ps = [float(v) for v in case["pixel_scales"]]
+    org = [float(v) for v in case["origin"]]
+    unit_mask = aa.Mask2D(mask=m.copy(), pixel_scales=(ps[0], ps[1]), origin=(org[0], org[1]))
+    mask = aa.Mask2D(mask=m.copy(), pixel_scales=(ps[0] * s, ps[1] * s), origin=(org[0] * s, org[1] * s))
+    base_unit = np.asarray(scene.over_sampler_for(unit_mask, spec["sub"]).over_sampled_grid, dtype=float)
+    osamp = scene.over_sampler_for(mask, spec["sub"])
+    src_unit = scene.apply_warp(base_unit, spec["warp"], np.asarray(org, dtype=float))
+    src = src_unit * s                      # exact: power of two
+    src_grid = aa.Grid2DIrregular(values=src.copy())
+    out = {"src": src, "verts": None, "buffer": None, "over_sampler": osamp, "scale": s}
+    if kind == "rect":
+        if spec.get("buffer") == "scaled":
+            out["buffer"] = ref.BUFFER * s
+            mesh = aa.Mesh2DRectangular.overlay_grid(grid=src_grid, shape_native=tuple(spec["shape"]), buffer=out["buffer"])
+        else:
+            out["buffer"] = ref.BUFFER
+            mesh = aa.Mesh2DRectangular.overlay_grid(grid=src_grid, shape_native=tuple(spec["shape"]))
+        min_sep = float(min(mesh.pixel_scales))
+    else:
+        verts_unit, min_sep = scene.delaunay_vertices(spec, src_unit)
+        out["verts"] = verts_unit * s
+        min_sep = min_sep * s
+        mesh = aa.Mesh2DDelaunay(values=out["verts"].copy())
+    adapt = None
+    if case.get("adapt") is not None:
+        adapt = aa.Array2D(values=np.asarray(case["adapt"], dtype=float), mask=mask)
+    mg = aa.MapperGrids(mask=mask, source_plane_data_grid=src_grid, source_plane_mesh_grid=mesh,
+                        image_plane_mesh_grid=None, adapt_data=adapt)
+    out["mesh"] = mesh
+    out["adapt"] = adapt
+    out["mapper"] = aa.Mapper(mapper_grids=mg, over_sampler=osamp, regularization=scene.build_reg(spec.get("reg"), min_sep))
+    return out
+
+
+def _read(mapper, name):
+    """One of the three reads under test -> list of (field, live array)."""
+    if name == "pix_sub_weights":
+        o = mapper.pix_sub_weights
+        return [("mappings", o.mappings), ("sizes", o.sizes), ("weights", o.weights)]
+    if name == "mapping_matrix":
+        return [("matrix", mapper.mapping_matrix)]
+    o = mapper.unique_mappings
+    return [("data_to_pix_unique", o.data_to_pix_unique), ("data_weights", o.data_weights), ("pix_lengths", o.pix_lengths)]
+
+
+def _query(mapper, op, adapt):
+    """A public query on the mapper other than the three reads under test; its result is not examined here."""
+    import autoarray as aa
+    p = int(mapper.params)
+    ramp = np.arange(p, dtype=float) + 1.0
+    if op == "pixel_signals":
+        return mapper.pixel_signals_from(signal_scale=0.7)
+    if op == "data_weight_total":
+        return mapper.data_weight_total_for_pix_from()
+    if op == "mapped_to_source":
+        return mapper.mapped_to_source_from(array=adapt)
+    if op == "pix_indexes_for_slim_indexes":
+        return (mapper.pix_indexes_for_slim_indexes(pix_indexes=[0, p - 1]),
+                mapper.pix_indexes_for_slim_indexes(pix_indexes=[[0], [p // 2, p - 1]]))
+    if op == "sub_slim_indexes_for_pix_index":
+        return mapper.sub_slim_indexes_for_pix_index
+    if op == "sub_slim_indexes_for_pix_index_arr":
+        return mapper.sub_slim_indexes_for_pix_index_arr
+    if op == "neighbors":
+        return mapper.neighbors
+    if op == "edge_pixel_list":
+        return mapper.edge_pixel_list
+    if op == "regularization_matrix":
+        return mapper.regularization_matrix
+    if op == "interpolated_array":
+        return mapper.interpolated_array_from(values=ramp, shape_native=(3, 4))
+    if op == "extent":
+        return mapper.extent_from(values=ramp, zoom_to_brightest=True, zoom_percent=0.5)
+    if op == "valued_masked_image":
+        return aa.MapperValued(mapper=mapper, values=ramp, mesh_pixel_mask=(np.arange(p) % 2 == 0)).mapped_reconstructed_image_from()
+    if op == "valued_max_pixels":
+        return aa.MapperValued(mapper=mapper, values=ramp).max_pixel_list_from(total_pixels=2)
+    if op == "cached_index_arrays":
+        return (mapper.pix_indexes_for_sub_slim_index, mapper.pix_sizes_for_sub_slim_index,
+                mapper.pix_weights_for_sub_slim_index, mapper.slim_index_for_sub_slim_index)
+    if op == "split_cross":
+        return mapper.pix_sub_weights_split_cross
+    if op == "valued_magnification":
+        return aa.MapperValued(mapper=mapper, values=ramp).magnification_via_mesh_from()
+    raise ValueError(op)
+
+
+def _same(a, b):
+    a = np.asarray(a); b = np.asarray(b)
+    return a.shape == b.shape and bool(np.array_equal(a, b, equal_nan=True))
+
+
+def _run_ops(ctx, kind, mapper, ops, adapt):
+    """Executes the drawn interleaving of queries and reads on `mapper`.  After every step, every array already
+    handed out by a read must still hold the values it held when first read (in-place edits of cached arrays are
+    attributed to the step that made them).  Returns {read name: [(field, copy at first read)]}."""
+    first = {}
+    live = {}
+    for op in ops:
+        if op.startswith("read:"):
+            name = op[5:]
+            items = ctx.impl("%s/%s" % (kind, name), _read, mapper, name)
+            if name not in first:
+                first[name] = [(f, np.array(a, copy=True)) for f, a in items]
+                live[name] = items
+        else:
+            ctx.label("query:%s" % op)
+            try:
+                _query(mapper, op, adapt)
+            except Exception as e:      # the query's own contract belongs to other properties; only its side effects matter here
+                ctx.label("query-raised:%s:%s" % (op, type(e).__name__))
+        for name, items in live.items():
+            for (f, arr), (_, cp) in zip(items, first[name]):
+                ctx.check(_same(arr, cp), "%s/state/%s-edited-in-place/by-%s" % (kind, name, op.replace("read:", "read-")),
+                          lambda: "%s.%s changed after step %r: was %s now %s" % (name, f, op, _short(cp), _short(arr)))
+    # a second read returns the same values as the first
+    for name in list(first):
+        again = _read(mapper, name)
+        for (f, arr), (_, cp) in zip(again, first[name]):
+            ctx.check(_same(arr, cp), "%s/state/%s-differs-on-second-read" % (kind, name),
+                      lambda: "%s.%s: first read %s, read after the whole sequence %s" % (name, f, _short(cp), _short(arr)))
+    return first
+
+
+def _short(a):
+    return np.array2string(np.asarray(a), precision=12, threshold=40, max_line_width=200)[:400]
+
+
+def _prepare(case, ctx, kind, precheck=None):
+    """Builds the mapper under test (after running the case's interleaving of queries and reads on it) and compares
+    its three outputs with those of a fresh mapper that is only read."""
     m = np.asarray(case["mask"], dtype=bool)
     for l in gens.mask_stats(m):
         ctx.label(l)
@@ -142,25 +364,45 @@ def _prepare(case, ctx, kind):
     n = int((~m).sum())
     sub = np.asarray(_sub_list(spec, n), dtype=int)
     per_pixel = len(set(sub.tolist())) > 1
+    k = int(case.get("scale_exp", 0))
     ctx.label("sub:per-pixel" if per_pixel else "sub:uniform-%d" % sub[0])
     ctx.label("sub:max-%d" % sub.max())
     ctx.label("warp:%s" % _warp_kind(spec["warp"]))
     ctx.label("scales:iso" if case["pixel_scales"][0] == case["pixel_scales"][1] else "scales:aniso")
-    mask = scene.build_mask(case)
-    mapper, info = scene.build_linear_obj(spec, mask)
-    src = np.asarray(info["source_grid"], dtype=float)
+    ctx.label(_scale_label(k))
+    if float(np.abs(np.asarray(case["origin"], dtype=float)).max()) * 2.0 ** k >= 2.0 ** 25:
+        ctx.label("scale:max|coordinate|>=2^25")
+    ctx.label("adapt:%s" % case.get("adapt_kind", "none"))
+    ctx.label("reg:%s" % (spec["reg"]["type"] if spec.get("reg") else "none"))
+    b = _build(case, kind, k)
+    mapper, src = b["mapper"], b["src"]
+    s = b["scale"]
     bmat, owner = ref.binning_matrix(sub)
     if src.shape != (len(owner), 2):
         ctx.fail("precondition/over-sampled-grid-length", "over-sampled grid has %s rows, sum sub^2 = %d" % (src.shape, len(owner)))
         return None
-    # geometric verification of sub-pixel ownership (image plane, before the warp)
-    base = np.asarray(info["over_sampler"].over_sampled_grid, dtype=float)
-    cen = ref.pixel_centres(m, case["pixel_scales"], case["origin"])[owner]
-    half = 0.5 * np.asarray(case["pixel_scales"], dtype=float)
-    scale = max(1.0, float(np.abs(cen).max()))
-    ok = np.all(np.abs(base - cen) <= half[None, :] + 1e-12 * scale)
+    # geometric verification of sub-pixel ownership (image plane, before the warp); tolerance relative to the scale
+    base = np.asarray(b["over_sampler"].over_sampled_grid, dtype=float)
+    ps = np.asarray(case["pixel_scales"], dtype=float) * s
+    cen = ref.pixel_centres(m, ps, np.asarray(case["origin"], dtype=float) * s)[owner]
+    ok = np.all(np.abs(base - cen) <= 0.5 * ps[None, :] + 1e-12 * max(float(np.abs(cen).max()), float(ps.max())))
     ctx.check(bool(ok), "precondition/sub-pixel-grouping", "a sub-pixel lies outside the footprint of the image pixel that owns its slot")
-    return mapper, info, sub, per_pixel, bmat, owner, src
+
+    if precheck is not None:
+        precheck(b, owner)
+    ops = case.get("ops") or list(READS)
+    nq = sum(1 for o in ops if not o.startswith("read:"))
+    first_read = next(i for i, o in enumerate(ops) if o.startswith("read:"))
+    ctx.label("ops:no-queries" if nq == 0 else "ops:query-before-first-read" if first_read > 0 else "ops:queries-after-first-read")
+    ctx.label("ops:first-read=%s" % ops[first_read][5:])
+    got = _run_ops(ctx, kind, mapper, ops, b["adapt"])
+    fresh = _build(case, kind, k)["mapper"]
+    for name in ("pix_sub_weights", "mapping_matrix", "unique_mappings"):
+        want = _read(fresh, name)
+        for (f, arr), (_, cp) in zip(want, got[name]):
+            ctx.check(_same(arr, cp), "%s/call-order/%s" % (kind, name),
+                      lambda: "%s.%s read after %s differs from a fresh mapper's: got %s want %s" % (name, f, ops, _short(cp), _short(arr)))
+    return mapper, b, sub, per_pixel, bmat, owner, src
 
 
 def _common_checks(ctx, kind, mapper, sub, per_pixel, bmat, owner, pixels, s_ref, sub_ok, tol=None):
@@ -265,30 +507,53 @@ def _common_checks(ctx, kind, mapper, sub, per_pixel, bmat, owner, pixels, s_ref
 # bodies
 # ---------------------------------------------------------------------------------------------
 def body_rect(case, ctx):
-    prep = _prepare(case, ctx, "rect")
-    if prep is None:
-        return
-    mapper, info, sub, per_pixel, bmat, owner, src = prep
     shape = [int(v) for v in case["obj"]["shape"]]
     ny, nx = shape
     pixels = ny * nx
+
+    def precheck(b, owner):
+        # the default overlay buffer (1e-8, absolute) against the resolution of the coordinates
+        cmax = float(np.abs(b["src"]).max())
+        ctx.label("buffer:%s" % case["obj"].get("buffer", "default"))
+        if b["buffer"] >= 8.0 * ref.EPS * cmax:
+            return
+        ctx.label("rect:buffer-below-coordinate-resolution")
+        probe = _build(case, "rect", int(case.get("scale_exp", 0)))
+        got = np.asarray(probe["mapper"].pix_sub_weights.mappings)[:, 0].astype(int)
+        rr = ref.rect_reference(b["src"], shape, buffer=b["buffer"])
+        slack = 1e-11 * (cmax + b["buffer"])
+        c = np.asarray(probe["mesh"], dtype=float)[np.clip(got, 0, pixels - 1)]
+        inside = ((got >= 0) & (got < pixels) & (np.abs(b["src"][:, 0] - c[:, 0]) <= 0.5 * rr["dy"] + slack)
+                  & (np.abs(b["src"][:, 1] - c[:, 1]) <= 0.5 * rr["dx"] + slack))
+        if not inside.all():
+            bad = np.flatnonzero(~inside)
+            ctx.fail_stop("rect/far-edge-outside-mesh/buffer-below-coordinate-resolution",
+                          "max|coordinate| = %.6g, overlay buffer %g is below 4 ulp: sub-pixels %s (on the far edge of the source "
+                          "grid) are mapped to cell indexes %s of a %dx%d mesh, which do not contain them" % (
+                              cmax, b["buffer"], bad[:4].tolist(), got[bad][:4].tolist(), ny, nx))
+
+    prep = _prepare(case, ctx, "rect", precheck)
+    if prep is None:
+        return
+    mapper, b, sub, per_pixel, bmat, owner, src = prep
     ctx.label("mesh:square" if ny == nx else "mesh:nonsquare")
-    r = ref.rect_reference(src, shape)
-    tie_abs = 1e-11 * max(1.0, float(np.abs(src).max()))
+    r = ref.rect_reference(src, shape, buffer=b["buffer"])
+    # tie band relative to the magnitude of the coordinates (rounding of the cell arithmetic is ~ eps * |coordinate|)
+    tie_abs = 1e-11 * (float(np.abs(src).max()) + b["buffer"])
     sub_ok = r["bdist"] > tie_abs
     if (~sub_ok).any():
         ctx.label("tie:cell-boundary")
-    ctx.label("mesh:degenerate-extent" if min(r["dy"] * ny, r["dx"] * nx) < 1e-6 else "mesh:regular-extent")
+    ctx.label("mesh:extent-dominated-by-buffer" if min(r["dy"] * ny, r["dx"] * nx) <= 4.0 * b["buffer"] else "mesh:regular-extent")
     nsub = len(owner)
     s_ref = np.zeros((nsub, pixels))
     s_ref[np.arange(nsub), np.clip(r["pix"], 0, pixels - 1)] = 1.0
 
-    mesh = info["mesh"]
+    mesh = b["mesh"]
     ctx.check(tuple(mesh.shape_native) == (ny, nx) and int(mapper.params) == pixels, "rect/mesh/shape",
               "mesh shape_native %s params %s" % (mesh.shape_native, mapper.params))
-    # published pixel centres of the overlaid mesh = centres of the cells of the bounding box +- 1e-8
-    cscale = max(1.0, float(np.abs(r["centres"]).max()))
-    ctx.close(np.asarray(mesh, dtype=float), r["centres"], "rect/mesh/centres", atol=1e-9 * cscale + 1e-9 * max(r["dy"], r["dx"]),
+    # published pixel centres of the overlaid mesh = centres of the cells of the bounding box +- buffer
+    ctx.close(np.asarray(mesh, dtype=float), r["centres"], "rect/mesh/centres",
+              atol=1e-9 * float(np.abs(r["centres"]).max()) + 1e-9 * max(r["dy"], r["dx"]),
               what="mesh pixel centres vs centres of the cells over the source bounding box")
 
     out = _common_checks(ctx, "rect", mapper, sub, per_pixel, bmat, owner, pixels, s_ref, sub_ok)
@@ -370,16 +635,36 @@ def _delaunay_core(ctx, mapper, mesh, src, verts, sub, per_pixel, bmat, owner, r
     nb = ctx.impl("delaunay/neighbors", lambda: mapper.neighbors)
     if general:
         _check_neighbors(ctx, np.asarray(nb), nb.sizes, r["adjacency"], "delaunay/neighbors")
+    return out, sub_ok, general
+
+
+def _scale_invariance(ctx, out, sub_ok, general, owner, unit_mapper, k):
+    """The same plane at unit scale gives the same matrix (power-of-two scaling is exact, so every area ratio and
+    every comparison is unchanged); rows with tie-band sub-pixels are excluded."""
+    if out is None or not general or k == 0:
+        return
+    mm = out[0]
+    row_ok = np.ones(mm.shape[0], dtype=bool)
+    row_ok[owner[~sub_ok]] = False
+    unit = np.asarray(unit_mapper.mapping_matrix, dtype=float)
+    cls = "small" if k < 0 else "large"
+    ctx.close(mm[row_ok], unit[row_ok], "delaunay/scale-invariance/%s-scale" % cls, atol=TOL_SUM,
+              what="mapping_matrix of the plane times 2**%d vs the plane at unit scale" % k)
+    ps, pu = unit_mapper.pix_sub_weights, None
+    ctx.equal(np.asarray(out[2])[sub_ok], np.asarray(ps.sizes)[sub_ok], "delaunay/scale-invariance/%s-scale" % cls,
+              "number of mapped vertices per sub-pixel, plane times 2**%d vs unit scale" % k)
 
 
 def body_delaunay(case, ctx):
     prep = _prepare(case, ctx, "delaunay")
     if prep is None:
         return
-    mapper, info, sub, per_pixel, bmat, owner, src = prep
-    verts = np.asarray(info["vertices"], dtype=float)
+    mapper, b, sub, per_pixel, bmat, owner, src = prep
     ctx.label("margin:%s" % case["obj"]["margin"])
-    _delaunay_core(ctx, mapper, info["mesh"], src, verts, sub, per_pixel, bmat, owner)
+    out, sub_ok, general = _delaunay_core(ctx, mapper, b["mesh"], src, b["verts"], sub, per_pixel, bmat, owner)
+    k = int(case.get("scale_exp", 0))
+    if k != 0:
+        _scale_invariance(ctx, out, sub_ok, general, owner, _build(case, "delaunay", 0)["mapper"], k)
 
 
 # ---- Delaunay, source points placed on vertices / edges / centroids ---------------------------
@@ -400,7 +685,7 @@ def special_point_cases(draw):
         pts.append([kind, draw(st.integers(0, 200)), draw(st.integers(0, 2)), draw(fr), draw(fr)])
     return {"sub": sub, "lattice": [ny, nx], "jitter": jit, "margin": 1.0,
             "box": [draw(gens.reals(-5, 5)), draw(gens.reals(-5, 5)), draw(gens.positives(0.1, 5.0)), draw(gens.positives(0.1, 5.0))],
-            "points": pts}
+            "points": pts, "scale_exp": draw(scale_exps())}
 
 
 def body_special_points(case, ctx):
@@ -433,14 +718,23 @@ def body_special_points(case, ctx):
             c = verts.mean(axis=0)
             rad = (1.2 + 3.0 * f1) * float(np.sqrt(((verts - c) ** 2).sum(axis=1).max()))
             pts.append(c + rad * np.array([np.sin(ang), np.cos(ang)]))
-    src = np.asarray(pts, dtype=float)
-    mask = aa.Mask2D(mask=np.zeros((1, n), dtype=bool), pixel_scales=(1.0, 1.0))
-    osamp = scene.over_sampler_for(mask, [int(v) for v in sub])
+    k = int(case.get("scale_exp", 0))
+    ctx.label(_scale_label(k))
+    sc = 2.0 ** k
     bmat, owner = ref.binning_matrix(sub)
-    mesh = aa.Mesh2DDelaunay(values=verts.copy())
-    mg = aa.MapperGrids(mask=mask, source_plane_data_grid=aa.Grid2DIrregular(values=src.copy()), source_plane_mesh_grid=mesh)
-    mapper = aa.Mapper(mapper_grids=mg, over_sampler=osamp, regularization=None)
-    _delaunay_core(ctx, mapper, mesh, src, verts, sub, per_pixel, bmat, owner)
+
+    def build(f):
+        mask = aa.Mask2D(mask=np.zeros((1, n), dtype=bool), pixel_scales=(f, f))
+        osamp = scene.over_sampler_for(mask, [int(v) for v in sub])
+        mesh = aa.Mesh2DDelaunay(values=verts * f)
+        mg = aa.MapperGrids(mask=mask, source_plane_data_grid=aa.Grid2DIrregular(values=np.asarray(pts, dtype=float) * f),
+                            source_plane_mesh_grid=mesh)
+        return aa.Mapper(mapper_grids=mg, over_sampler=osamp, regularization=None), mesh
+
+    mapper, mesh = build(sc)
+    out, sub_ok, general = _delaunay_core(ctx, mapper, mesh, np.asarray(pts, dtype=float) * sc, verts * sc, sub, per_pixel, bmat, owner)
+    if k != 0:
+        _scale_invariance(ctx, out, sub_ok, general, owner, build(1.0)[0], k)
 
 
 def cases_rect_neighbors(tier):
@@ -466,11 +760,11 @@ def body_rect_neighbors(case, ctx):
 
 
 SUBCHECKS = [
-    SubCheck("rect", body_rect, strategy=mapper_cases("rect"), examples={"quick": 2000, "thorough": 24000},
+    SubCheck("rect", body_rect, strategy=mapper_cases("rect"), examples={"quick": 2000, "thorough": 16000},
              shards={"quick": 6, "thorough": 6}),
-    SubCheck("delaunay", body_delaunay, strategy=mapper_cases("delaunay"), examples={"quick": 2000, "thorough": 24000},
+    SubCheck("delaunay", body_delaunay, strategy=mapper_cases("delaunay"), examples={"quick": 2000, "thorough": 16000},
              shards={"quick": 8, "thorough": 8}),
     SubCheck("delaunay-special-points", body_special_points, strategy=special_point_cases(),
-             examples={"quick": 600, "thorough": 6000}, shards={"quick": 2, "thorough": 2}),
+             examples={"quick": 600, "thorough": 4000}, shards={"quick": 2, "thorough": 2}),
     SubCheck("rect-neighbors", body_rect_neighbors, cases=cases_rect_neighbors, shards={"quick": 1, "thorough": 1}),
 ]
